@@ -39,13 +39,14 @@ const (
 	kSwitch
 	kIRoot
 	kCommit
+	kCommitReset // Commit, flush, Reset(root): what app.CommitBlock does; every cached object is dropped and re-read
 )
 
 var kindName = map[okind]string{
 	kAddBal: "AddBalance", kSubBal: "SubBalance", kSetBal: "SetBalance", kAddTok: "AddTokenBalance", kSubTok: "SubTokenBalance",
 	kSetTok: "SetTokenBalance", kSetNonce: "SetNonce", kSetCode: "SetCode", kSetState: "SetState", kCreate: "CreateAccount",
 	kSuicide: "Suicide", kAddLog: "AddLog", kAddRefund: "AddRefund", kPrepare: "Prepare", kSnapshot: "Snapshot", kRevert: "RevertToSnapshot",
-	kCopyStay: "Copy", kCopySwitch: "Copy+Switch", kSwitch: "Switch", kIRoot: "IntermediateRoot", kCommit: "Commit",
+	kCopyStay: "Copy", kCopySwitch: "Copy+Switch", kSwitch: "Switch", kIRoot: "IntermediateRoot", kCommit: "Commit", kCommitReset: "Commit+Reset",
 }
 
 // op is one letter of the alphabet. a = account index, t = token index (-1 native), s = storage key index,
@@ -99,6 +100,8 @@ func mk(k okind, a, t, s int, v int64) op {
 		n = "IntermediateRoot(false)"
 	case kCommit:
 		n = "Commit(false)"
+	case kCommitReset:
+		n = "Commit(false)+Reset(root)"
 	}
 	return op{k: k, a: a, t: t, s: s, v: v, name: n}
 }
@@ -195,6 +198,9 @@ type minst struct {
 	// foreign: another instance committed to the shared database while this instance (or the instance it
 	// was copied from) was alive (diagnosis of the flat key-value mode only)
 	foreign bool
+	// lostStor: the instance is a copy (or a copy of such a copy) taken while the account had storage that was
+	// flushed but not committed (diagnosis of the flat key-value mode only)
+	lostStor [nAddr]bool
 }
 
 type mworld struct {
@@ -424,6 +430,9 @@ func (w *mworld) apply(o op, opIdx int) {
 		c.eff = append(append([]effRec(nil), in.eff...), effRec{-1, 0})
 		c.touched = true
 		c.foreign = in.foreign
+		for a := 0; a < nAddr; a++ {
+			c.lostStor[a] = in.lostStor[a] || (in.od[a] && in.acc[a].exists && in.acc[a].stor != [nKey]int64{})
+		}
 		c.genCtr = in.genCtr
 		c.disk = in.disk
 		w.inst = append(w.inst, c)
@@ -436,7 +445,7 @@ func (w *mworld) apply(o op, opIdx int) {
 		record = false
 	case kIRoot:
 		in.finalise()
-	case kCommit:
+	case kCommit, kCommitReset:
 		writes := false
 		for a := 0; a < nAddr; a++ {
 			writes = writes || in.jd[a] || in.od[a] || in.reset[a]
@@ -453,6 +462,11 @@ func (w *mworld) apply(o op, opIdx int) {
 			}
 		}
 		in.commit()
+		if o.k == kCommitReset {
+			// Reset also forgets the logs and the current tx hash
+			in.logs = nil
+			in.th = 0
+		}
 	}
 	for a := 0; a < nAddr; a++ {
 		if s.jd[a] {
